@@ -170,3 +170,20 @@ package core
 
 // Equal is symmetric between an integer and a decimal, and agrees with Compare == 0
 //@ lemma! equal_symmetric_int_dnum(i SuInt64, d SuDnum, iv Value, dv Value): typeis(iv, "SuInt64") && unbox(iv, "SuInt64") == i && typeis(dv, "SuDnum") && unbox(dv, "SuDnum") == d && !(d.Dnum.exp == 19 && d.Dnum.coef >= 9223372036854775) ==> (dnIsInt(d.Dnum) && dnIntVal(d.Dnum) == i.int64 <==> dnIsInt(d.Dnum) && dnIntVal(d.Dnum) == ivalV(iv))
+
+//@ property C41
+// IDbms methods that the unauthorized wrapper forwards although the property
+// does not allow them to unauthenticated clients: no protocol command may
+// reach them without the permission (dbms.authz).
+//@ func (d IDbms) Use(lib) (r)
+//@   assumed
+//@   requires authz
+//@   modifies all
+//@ func (d IDbms) Unuse(lib) (r)
+//@   assumed
+//@   requires authz
+//@   modifies all
+//@ func (d IDbms) Close()
+//@   assumed
+//@   requires authz
+//@   modifies all
